@@ -75,6 +75,6 @@ Exact    == hdrLen # 0 =>
     /\ \A x \in DOMAIN want : Cardinality({r \in recs : r.id = x}) = 1
     /\ Cardinality(Linked(AsFile)) = Cardinality(recs)                      \* every record is reachable
 Monotone == [][(hdrLen # 0 /\ last'.op # "create") => /\ limit' >= limit /\ size' >= size /\ hdrLen' = hdrLen
-                             /\ \A r \in recs : \E s \in recs' : s.off = r.off /\ s.nlen = r.nlen /\ s.next = r.next /\ s.id = r.id /\ s.val >= r.val]_vars
+                             /\ \A r \in recs : \E s \in recs' : s.off = r.off /\ s.nlen = r.nlen /\ s.id = r.id /\ s.val >= r.val]_vars
 View == <<file, nops>>
 =============================================================================
